@@ -302,7 +302,7 @@ func C16(tier string) int {
 	budget := 150 * time.Second
 	if tier == "thorough" {
 		depth = 9
-		budget = 40 * time.Minute
+		budget = 15 * time.Minute
 	}
 	ops := []POp{{Kind: "prepare-all"}, {Kind: "prepare-all-readdressed"}, {Kind: "execute", At: 1}, {Kind: "execute", At: 2}, {Kind: "execute", At: 3}, {Kind: "commit-all"}, {Kind: "abort-all"}}
 	var serial atomic.Uint64
